@@ -13,6 +13,15 @@ CLAIMED = {
             "sizes <= 3 (quick) / 4 (thorough), history length <= 2 / 3, element types uint8_t/int/12-byte POD; allocation never fails; "
             "operator new/delete = malloc/free model; trusted: clang -O1 lowering, ll2c translator (validated by differential runs), cbmc",
             "bounded model checking (cbmc) of LLVM-IR-derived C, native sanitizer replay"),
+    "C18": ("model_checking",
+            "Symbolic execution of the real StringManip/PseudoURL/FileName/ArgumentList/common.cpp code (clang IR -> vp/llpath.py, a KLEE-style "
+            "path-forking executor; libstdc++'s string/vector code is the real header code instantiated in the TU): every feasible path for every string of "
+            "the stated lengths over arbitrary bytes is executed, z3 decides branch feasibility and every obligation (decomposition laws, memory safety, "
+            "libstdc++ preconditions); prettyNumber/prettyDouble thresholds by SMT over exact reals (ll2smt); counterexamples replayed under ASan/UBSan.",
+            "DESIGN.md 3/C18",
+            "string lengths 0..4 (quick) / 0..6 (thorough), FileName 1..4 / 1..6; PseudoURL: 0-2 letter type, 1-2 character file, two pairs; argument vectors of <= 5; "
+            "split(input,char) via getline, canonical()/homeFolder() and printed decimal digits are outside; exceeding a path/step/time limit is reported inconclusive",
+            "symbolic execution of LLVM IR with z3 (vp/llpath.py) + SMT (ll2smt), native sanitizer replay"),
     "C15": ("model_checking",
             "Bounded symbolic checking of the real DataStreaming.cpp/.h code: FixedBufferWriter::write/reserve and BufferReader::read/getView "
             "as one step from an arbitrary valid (capacity,cursor) state with the size/count a full 64-bit symbol; typed round trips through "
